@@ -129,76 +129,12 @@ func NewReverseSuffixSetSearcher(
 
 // Find searches using Teddy suffix prefilter + reverse DFA.
 //
-// For greedy matching (like `.*`), we need to find the LAST matching suffix.
-// However, with multiple suffix lengths, we iterate through all candidates
-// and track the best (rightmost) match.
-// Includes anti-quadratic guard to prevent O(n^2) behavior with many suffix false positives.
+// Returns the leftmost match, i.e. the same match as FindAt(haystack, 0): the first
+// suffix candidate (left to right) that the reverse DFA confirms. Tracking the
+// rightmost confirmed candidate instead would return the LAST match in the haystack
+// (`\w+\.(txt|log)` on "a.txt b.log" must be [0 5], not [6 11]).
 func (s *ReverseSuffixSetSearcher) Find(haystack []byte) *Match {
-	if len(haystack) == 0 {
-		return nil
-	}
-
-	// Acquire cache once for the entire candidate loop
-	revCache := s.revCachePool.Get().(*lazy.DFACache)
-	defer s.revCachePool.Put(revCache)
-
-	// For greedy matching, find the LAST suffix candidate
-	// We scan forward and keep track of the last valid match
-	var lastMatch *Match
-	start := 0
-	minStart := 0 // Anti-quadratic guard for reverse scans
-
-	for {
-		// Find next suffix candidate
-		pos := s.prefilter.Find(haystack, start)
-		if pos == -1 {
-			break
-		}
-
-		// Get the length of the matched suffix literal
-		suffixLen := s.getSuffixLen(haystack, pos)
-		if suffixLen == 0 {
-			start = pos + 1
-			continue
-		}
-
-		suffixEnd := pos + suffixLen
-		if suffixEnd > len(haystack) {
-			suffixEnd = len(haystack)
-		}
-
-		// For unanchored patterns, .* cannot cross \n boundaries.
-		// Match starts at the beginning of the line containing the suffix.
-		if s.matchStartZero {
-			matchStart := lineStartBefore(haystack, 0, pos)
-			lastMatch = NewMatch(matchStart, suffixEnd, haystack)
-		} else {
-			// Use reverse DFA with anti-quadratic guard to find match start
-			matchStart := s.reverseDFA.SearchReverseLimited(revCache, haystack, 0, suffixEnd, minStart)
-			if matchStart == lazy.SearchReverseLimitedQuadratic {
-				// Quadratic behavior detected - fall back to PikeVM
-				pStart, pEnd, found := s.pikevm.Search(haystack)
-				if found {
-					return NewMatch(pStart, pEnd, haystack)
-				}
-				return lastMatch
-			}
-			if matchStart >= 0 {
-				lastMatch = NewMatch(matchStart, suffixEnd, haystack)
-			}
-			// Update anti-quadratic guard
-			if suffixEnd > minStart {
-				minStart = suffixEnd
-			}
-		}
-
-		start = pos + 1
-		if start >= len(haystack) {
-			break
-		}
-	}
-
-	return lastMatch
+	return s.FindAt(haystack, 0)
 }
 
 // FindAt searches for a match starting from position 'at'.
